@@ -47,7 +47,8 @@ class C11(Check):
                     {"reply": r[0], "exc": r[1]}, {"errorcode": "0/1"}, "nominal"))
             ex = w.exchanges()
             own_opens = sum(1 for e in w.log if e[0] == "open") - 1      # minus make_protocol's connect
-            self.nominal[name] = {"n": len(ex), "opens": max(0, own_opens),
+            self.nominal[name] = {"n": len(ex), "opens": max(0, own_opens), "reply": r[0],
+                                  "apdus": [e[2] for e in ex],
                                   "kinds": [dialogues.classify_exchange(name, e[2]) for e in ex]}
         # what "the full bring-up checks" are on this tree: the exchanges of the real
         # initialize_device against a device that is already in the signer (must at least ask
@@ -371,6 +372,15 @@ class C11(Check):
                  {"errorcode": derr})
             return
         if codes[0] != derr:
+            # the statement speaks of the request whose connection "cannot be re-established"; a command
+            # that tries its own reconnection again, gets the device back and completes exactly the
+            # nominal dialogue is left free (benign C04-b7)
+            log0 = [e[0] for e in slices[0]]
+            retried = "open-fail" in log0 and "open" in log0[log0.index("open-fail"):]
+            if retried and replies[0][0] == self.nominal[name]["reply"] \
+                    and [e[2] for e in slices[0] if e[0] == "x"] == self.nominal[name]["apdus"]:
+                stats.dont_care += 1
+                return
             viol("failed-reconnect-code", {"reply": replies[0][0]}, {"errorcode": derr})
             return
         if w.device.mode != MODE_SIGNER:
@@ -494,16 +504,24 @@ class C11(Check):
                 if len(entries) <= pos or entries[pos][0] not in ("open", "open-fail"):
                     viol("no-reopen", {"log": entries[:8]}, "getDongle() after close()")
                     return
+                reopened = True
                 if entries[pos][0] == "open-fail":
-                    failed_opens = locals().get("failed_opens", 0) + 1
+                    # the request may try again by itself (closing in between or not): what counts is
+                    # whether the connection was re-established before it gave up
+                    while pos < len(entries) and entries[pos][0] in ("open-fail", "close"):
+                        if entries[pos][0] == "open-fail":
+                            failed_opens = locals().get("failed_opens", 0) + 1
+                        pos += 1
                     if failed_opens > k:
                         viol("reconnect-does-not-succeed-when-the-device-is-back",
                              {"failed_attempts": failed_opens, "log": entries[:6]},
                              {"connect_failures_injected": k})
                         return
-                    if len(entries) > pos + 1:
+                    reopened = pos < len(entries) and entries[pos][0] == "open"
+                    if not reopened and len(entries) > pos:
                         viol("traffic-after-failed-connect", {"log": entries[:8]}, "nothing")
                         return
+                if not reopened:
                     if exc is not None:
                         viol("failed-reconnect-stops-manager", {"exc": exc}, {"errorcode": derr})
                         return
